@@ -298,8 +298,8 @@ package lisp
 //@ frame writers(Runtime.conditionStack) subset { (*Runtime).PopCondition, (*Runtime).PushCondition } property C05 C06
 //@ frame callers((*CallStack).PushFID) subset { (*LEnv).funCall, (*LEnv).macroCall, (*LEnv).specialOpCall } property C05
 //@ frame callers((*CallStack).Pop) subset { (*LEnv).funCall, (*LEnv).macroCall, (*LEnv).specialOpCall } property C05
-//@ frame callers((*Runtime).PushCondition) subset { opHandlerBind } property C05
-//@ frame callers((*Runtime).PopCondition) subset { opHandlerBind } property C05
+//@ frame callers((*Runtime).PushCondition) subset { opHandlerBind } property C05 C06
+//@ frame callers((*Runtime).PopCondition) subset { opHandlerBind } property C05 C06
 //@ frame callers((*Runtime).beginEval) subset { (*LEnv).Eval, (*LEnv).EvalContext, (*LEnv).EvalSExpr, (*LEnv).FunCall, (*LEnv).FunCallContext, (*LEnv).MacroCall, (*LEnv).SpecialOpCall, (*LEnv).load } property C05
 //@ frame callers((*LEnv).checkLimits) subset { (*LEnv).eval, (*LEnv).funCall, (*LEnv).specialOpCall, opDoTimes, opExpr } property C04
 
@@ -419,18 +419,22 @@ package lisp
 //@   ensures  FLAGSBELOW(arg0, old(len(arg0.Runtime.Stack.Frames)) - 1)
 //@   ensures-on-panic BAL(arg0)
 //@   ensures-on-panic preserved(LEnv.evalCtx)
+//@   ensures-on-panic FLAGSBELOW(arg0, old(len(arg0.Runtime.Stack.Frames)) - 1)
 
 //@ pred PUSHED(env) = rtOK(env) && env.Runtime == old(env.Runtime) && env.Runtime.Stack == old(env.Runtime.Stack) && len(env.Runtime.Stack.Frames) == old(len(env.Runtime.Stack.Frames)) + 1 && env.Runtime.evalNesting == old(env.Runtime.evalNesting) && len(env.Runtime.conditionStack) == old(len(env.Runtime.conditionStack)) && env.Runtime.evalDepth == old(env.Runtime.evalDepth)
 
 //@ func (*LEnv).eval
 //@   requires rtOK(env)
+//@   ghost    recovered : int
+//@   ensures  [recovered-host-panic-carries-the-marker] recovered > old(recovered) ==> IsInternalPanic(result)
 //@   loop 1 (_) invariant rtOK(env) && env.Runtime == old(env.Runtime) && env.Runtime.Stack == old(env.Runtime.Stack) && len(env.Runtime.Stack.Frames) == old(len(env.Runtime.Stack.Frames)) && env.Runtime.evalNesting == old(env.Runtime.evalNesting) + 1 && len(env.Runtime.conditionStack) == old(len(env.Runtime.conditionStack)) && env.Runtime.evalDepth == old(env.Runtime.evalDepth)
+//@   loop 1 (_) invariant [flags] FLAGS(env)
 //@   loop 1 (_) invariant [ctx] preserved(LEnv.evalCtx)
 //@   ensures  [balanced] BAL(env)
 //@   ensures  [evalctx-restored] preserved(LEnv.evalCtx)
 //@   nopanic
 //@   ensures  [frames-below-keep-their-flags] FLAGS(env)
-//@   property C05 C04
+//@   property C05 C04 C06
 
 //@ func (*LEnv).evalSExpr
 //@   requires rtOK(env)
@@ -439,11 +443,14 @@ package lisp
 //@   ensures-on-panic [balanced-on-panic] BAL(env)
 //@   ensures-on-panic [evalctx-restored-on-panic] preserved(LEnv.evalCtx)
 //@   ensures  [frames-below-keep-their-flags] FLAGS(env)
+//@   ensures-on-panic [frames-below-keep-their-flags-on-panic] FLAGS(env)
 //@   property C05
 
 //@ func (*LEnv).evalSExprCells
 //@   requires rtOK(env)
 //@   loop 1 (rangeindex) invariant -1 <= rangeindex && rangeindex < old(len(s.Cells)) - 1
+//@   loop 1 (rangeindex) invariant [flags-below-top] FLAGSBELOW(env, old(len(env.Runtime.Stack.Frames)) - 1)
+//@   loop 1 (rangeindex) invariant [top-held-non-terminal] old(len(env.Runtime.Stack.Frames)) >= 1 ==> !env.Runtime.Stack.Frames[len(env.Runtime.Stack.Frames)-1].Terminal && env.Runtime.Stack.Frames[len(env.Runtime.Stack.Frames)-1].TROBlock == old(env.Runtime.Stack.Frames[len(env.Runtime.Stack.Frames)-1].TROBlock) && env.Runtime.Stack.Frames[len(env.Runtime.Stack.Frames)-1].FID == old(env.Runtime.Stack.Frames[len(env.Runtime.Stack.Frames)-1].FID)
 //@   loop 1 (rangeindex) invariant [ctx] preserved(LEnv.evalCtx)
 //@   loop 1 (rangeindex) invariant KEEP(env) && env.Runtime.evalDepth == old(env.Runtime.evalDepth)
 //@   ensures  [balanced] BAL(env)
@@ -453,28 +460,50 @@ package lisp
 //@   ensures-on-panic [evalctx-restored-on-panic] preserved(LEnv.evalCtx)
 //@   ensures-on-panic [loc-restored-on-panic] env.loc == old(env.loc)
 //@   ensures  [frames-below-keep-their-flags] FLAGS(env)
+//@   ensures-on-panic [frames-below-keep-their-flags-on-panic] FLAGS(env)
 //@   property C05 C18
 
 //@ func (*LEnv).funCall
-//@   requires rtOK(env)
+//@   requires rtOK(env) && fun != nil
 //@   loop 1 (_) invariant PUSHED(env)
+//@   loop 1 (_) invariant [flags] FLAGS(env)
 //@   loop 1 (_) invariant [ctx] preserved(LEnv.evalCtx)
 //@   ensures  [balanced] BAL(env)
 //@   ensures  [evalctx-restored] preserved(LEnv.evalCtx)
 //@   ensures-on-panic [balanced-on-panic] BAL(env)
 //@   ensures-on-panic [evalctx-restored-on-panic] preserved(LEnv.evalCtx)
 //@   ensures  [frames-below-keep-their-flags] FLAGS(env)
+//@   ensures-on-panic [frames-below-keep-their-flags-on-panic] FLAGS(env)
+//@   ghost    nlim : int
+//@   ghost    ntc : int
+//@   ghost    ncall : int
+//@   counts   nlim checkLimits
+//@   counts   ntc CheckTailCall
+//@   counts   ncall call
+//@   loop 1 (_) invariant [limits-consulted-every-turn] ncall - old(ncall) == nlim - old(nlim) && ncall - old(ncall) == ntc - old(ntc)
+//@   assert-at TerminalFID [tail-chain-sought-only-without-debugger] env.Runtime.Debugger == nil && arg1 == fun.FID()
+//@   assert-at markTailRec [mark-only-for-a-found-chain] arg0 == local("npop") && arg0 > 0 && arg1 == fun && arg2 == args
+//@   assert-at call [body-not-run-when-a-chain-was-found] local("npop") <= 0
 //@   property C05 C02
 
 //@ func (*LEnv).specialOpCall
 //@   requires rtOK(env)
 //@   loop 1 (_) invariant PUSHED(env)
+//@   loop 1 (_) invariant [flags] FLAGS(env)
 //@   loop 1 (_) invariant [ctx] preserved(LEnv.evalCtx)
 //@   ensures  [balanced] BAL(env)
 //@   ensures  [evalctx-restored] preserved(LEnv.evalCtx)
 //@   ensures-on-panic [balanced-on-panic] BAL(env)
 //@   ensures-on-panic [evalctx-restored-on-panic] preserved(LEnv.evalCtx)
 //@   ensures  [frames-below-keep-their-flags] FLAGS(env)
+//@   ensures-on-panic [frames-below-keep-their-flags-on-panic] FLAGS(env)
+//@   ghost    nlim : int
+//@   ghost    ntc : int
+//@   ghost    ncall : int
+//@   counts   nlim checkLimits
+//@   counts   ntc CheckTailCall
+//@   counts   ncall call
+//@   loop 1 (_) invariant [limits-consulted-every-turn] ncall - old(ncall) == nlim - old(nlim) && ncall - old(ncall) == ntc - old(ntc)
 //@   property C05 C02
 
 //@ func (*LEnv).macroCall
@@ -484,6 +513,8 @@ package lisp
 //@   ensures-on-panic [balanced-on-panic] BAL(env)
 //@   ensures-on-panic [evalctx-restored-on-panic] preserved(LEnv.evalCtx)
 //@   ensures  [frames-below-keep-their-flags] FLAGS(env)
+//@   ensures-on-panic [frames-below-keep-their-flags-on-panic] FLAGS(env)
+//@   assert-at call [macro-frame-blocks-tail-elision] len(env.Runtime.Stack.Frames) >= 1 && env.Runtime.Stack.Frames[len(env.Runtime.Stack.Frames)-1].TROBlock
 //@   property C05 C02
 
 //@ func (*LEnv).call
@@ -503,8 +534,9 @@ package lisp
 //@   loop 1 (_) invariant [flags-below] FLAGSBELOW(env, old(len(env.Runtime.Stack.Frames)) - 1)
 //@   loop 1 (_) invariant [top-not-terminal] !env.Runtime.Stack.Frames[len(env.Runtime.Stack.Frames)-1].Terminal
 //@   assert-at eval~ret_=_fenv.eval(ctx,_body[i]) [leading-forms-run-with-a-non-terminal-frame] !env.Runtime.Stack.Frames[len(env.Runtime.Stack.Frames)-1].Terminal
-//@   assert-at eval~return_fenv.eval(ctx,_body[len(body)-1]) [last-form-is-terminal-unless-macro] old(fun.FunType) != LFunMacro ==> env.Runtime.Stack.Frames[len(env.Runtime.Stack.Frames)-1].Terminal
+//@   assert-at eval~return_fenv.eval(ctx,_body[len(body)-1]) [last-form-is-terminal-unless-macro] fun.FunType != LFunMacro ==> env.Runtime.Stack.Frames[len(env.Runtime.Stack.Frames)-1].Terminal
 //@   ensures  [frames-below-top-keep-their-flags] FLAGSBELOW(env, old(len(env.Runtime.Stack.Frames)) - 1)
+//@   ensures-on-panic [frames-below-top-keep-their-flags-on-panic] FLAGSBELOW(env, old(len(env.Runtime.Stack.Frames)) - 1)
 //@   property C05 C02
 
 //@ frame writers(LEnv.evalCtx) subset { (*LEnv).call, WithContext$1, newEnvN } property C05
@@ -528,6 +560,7 @@ package lisp
 //@   ensures  [evalctx-restored] preserved(LEnv.evalCtx)
 //@   ensures-on-panic [balanced-on-panic] BAL(env)
 //@   ensures-on-panic [evalctx-restored-on-panic] preserved(LEnv.evalCtx)
+//@   ensures  [frames-keep-their-flags] FLAGS(env)
 //@   property C05 C04
 
 //@ func (*LEnv).EvalContext
@@ -536,6 +569,7 @@ package lisp
 //@   ensures  [evalctx-restored] preserved(LEnv.evalCtx)
 //@   ensures-on-panic [balanced-on-panic] BAL(env)
 //@   ensures-on-panic [evalctx-restored-on-panic] preserved(LEnv.evalCtx)
+//@   ensures  [frames-keep-their-flags] FLAGS(env)
 //@   property C05 C04
 
 //@ func (*LEnv).EvalSExpr
@@ -544,6 +578,7 @@ package lisp
 //@   ensures  [evalctx-restored] preserved(LEnv.evalCtx)
 //@   ensures-on-panic [balanced-on-panic] BAL(env)
 //@   ensures-on-panic [evalctx-restored-on-panic] preserved(LEnv.evalCtx)
+//@   ensures  [frames-keep-their-flags] FLAGS(env)
 //@   property C05
 
 //@ func (*LEnv).FunCall
@@ -552,6 +587,7 @@ package lisp
 //@   ensures  [evalctx-restored] preserved(LEnv.evalCtx)
 //@   ensures-on-panic [balanced-on-panic] BAL(env)
 //@   ensures-on-panic [evalctx-restored-on-panic] preserved(LEnv.evalCtx)
+//@   ensures  [frames-keep-their-flags] FLAGS(env)
 //@   property C05
 
 //@ func (*LEnv).FunCallContext
@@ -560,6 +596,7 @@ package lisp
 //@   ensures  [evalctx-restored] preserved(LEnv.evalCtx)
 //@   ensures-on-panic [balanced-on-panic] BAL(env)
 //@   ensures-on-panic [evalctx-restored-on-panic] preserved(LEnv.evalCtx)
+//@   ensures  [frames-keep-their-flags] FLAGS(env)
 //@   property C05
 
 //@ func (*LEnv).MacroCall
@@ -568,6 +605,7 @@ package lisp
 //@   ensures  [evalctx-restored] preserved(LEnv.evalCtx)
 //@   ensures-on-panic [balanced-on-panic] BAL(env)
 //@   ensures-on-panic [evalctx-restored-on-panic] preserved(LEnv.evalCtx)
+//@   ensures  [frames-keep-their-flags] FLAGS(env)
 //@   property C05
 
 //@ func (*LEnv).SpecialOpCall
@@ -576,6 +614,7 @@ package lisp
 //@   ensures  [evalctx-restored] preserved(LEnv.evalCtx)
 //@   ensures-on-panic [balanced-on-panic] BAL(env)
 //@   ensures-on-panic [evalctx-restored-on-panic] preserved(LEnv.evalCtx)
+//@   ensures  [frames-keep-their-flags] FLAGS(env)
 //@   property C05
 
 // ---------------------------------------------------------------- handler-bind / ignore-errors (C05 balance, C06 semantics)
@@ -594,6 +633,8 @@ package lisp
 //@   loop 2 (rangeindex) invariant [ctx] preserved(LEnv.evalCtx)
 //@   loop 3 (rangeindex) invariant [idx] -1 <= rangeindex
 //@   loop 3 (rangeindex) invariant [earlier-bindings-did-not-match] forall(j, 0, rangeindex + 1, !matches(old(args.Cells[0]).Cells[j].Cells[0], ret("Eval#1", 0)))
+//@   loop 2 (rangeindex) invariant [frame-stays-tro-blocked] env.Runtime.Stack.Frames[len(env.Runtime.Stack.Frames)-1].TROBlock
+//@   assert-at Eval [evaluates-under-a-tro-blocked-frame] env.Runtime.Stack.Frames[len(env.Runtime.Stack.Frames)-1].TROBlock
 //@   assert-at Eval#2 [only-after-a-form-failed] ret("Eval#1", 0).Type == LError
 //@   assert-at Eval#2 [evaluates-handler-of-current-binding] arg1 == old(args.Cells[0]).Cells[loopvar(3)+1].Cells[1]
 //@   assert-at Eval#2 [current-binding-matches] matches(old(args.Cells[0]).Cells[loopvar(3)+1].Cells[0], ret("Eval#1", 0))
@@ -613,7 +654,7 @@ package lisp
 //@   ensures-on-panic [balanced-conditions-on-panic] BALconds(env)
 //@   ensures-on-panic [balanced-counters-on-panic] BALcount(env)
 //@   ensures-on-panic [evalctx-restored-on-panic] preserved(LEnv.evalCtx)
-//@   property C05 C06
+//@   property C05 C06 C02
 
 //@ func opIgnoreErrors
 //@   requires rtOK(env) && len(env.Runtime.Stack.Frames) >= 1 && argsOK(args, 0)
@@ -621,6 +662,8 @@ package lisp
 //@   loop 1 (rangeindex) invariant [keep] KEEP(env) && env.Runtime.evalDepth == old(env.Runtime.evalDepth)
 //@   loop 1 (rangeindex) invariant [ctx] preserved(LEnv.evalCtx)
 //@   loop 1 (rangeindex) invariant [value-so-far-is-not-an-error] val == nil || val.Type != LError
+//@   loop 1 (rangeindex) invariant [frame-stays-tro-blocked] env.Runtime.Stack.Frames[len(env.Runtime.Stack.Frames)-1].TROBlock
+//@   assert-at Eval [evaluates-under-a-tro-blocked-frame] env.Runtime.Stack.Frames[len(env.Runtime.Stack.Frames)-1].TROBlock
 //@   uses singletons
 //@   assert-at return~return_Nil()#2 [swallows-only-ordinary-errors] ret("Eval", 0).Type == LError && !IsInternalPanic(ret("Eval", 0))
 //@   assert-at return~return_val#1 [host-panic-returned-unchanged] arg0 == ret("Eval", 0) && IsInternalPanic(arg0)
@@ -644,6 +687,8 @@ package lisp
 //@   requires rtOK(env)
 //@   ensures  [rethrows-the-handled-error-itself] old(len(env.Runtime.conditionStack)) > 0 && old(env.Runtime.conditionStack[len(env.Runtime.conditionStack)-1]) != nil ==> result == old(env.Runtime.conditionStack[len(env.Runtime.conditionStack)-1])
 //@   ensures  [error-outside-handler] old(len(env.Runtime.conditionStack)) == 0 ==> result != nil && result.Type == LError && fresh(result)
+//@   ensures  [does-not-consume-the-condition] len(env.Runtime.conditionStack) == old(len(env.Runtime.conditionStack))
+//@   modifies nothing
 //@   property C06
 
 //@ func builtinError
@@ -697,3 +742,28 @@ package lisp
 
 //@ frame writers(CallFrame.Terminal) subset { (*CallStack).Pop, (*CallStack).PushFID, (*LEnv).call, (*LEnv).evalSExprCells, (*LEnv).evalSExprCells$2, builtinApply, builtinFunCall } property C02
 //@ frame writers(CallFrame.TROBlock) subset { (*CallStack).Pop, (*CallStack).PushFID, (*LEnv).macroCall, builtinLoadBytes, builtinLoadFile, builtinLoadString, opHandlerBind, opIgnoreErrors } property C02
+
+//@ func markTailRec
+//@   ensures  [shape] result != nil && fresh(result) && result.Type == LMarkTailRec && len(result.Cells) == 4
+//@   ensures  [counts] result.Cells[0] != nil && result.Cells[1] != nil && result.Cells[0].Int == npop && result.Cells[1].Int == npop && result.Cells[0] != result.Cells[1]
+//@   ensures  [carries-the-call] result.Cells[2] == fun && result.Cells[3] == args
+//@   modifies nothing
+//@   nopanic
+//@   property C02
+
+//@ func decrementMarkTailRec
+//@   requires mark != nil && len(mark.Cells) == 4 && mark.Cells[0] != nil && mark.Cells[0].Int > -4611686018427387904
+//@   ensures  [decrements-by-one] old(mark.Cells[0]).Int == old(mark.Cells[0].Int) - 1
+//@   ensures  [done-exactly-at-zero] result == (old(mark.Cells[0].Int) - 1 <= 0)
+//@   property C02
+
+//@ func builtinFunCall
+//@   requires rtOK(env) && len(env.Runtime.Stack.Frames) >= 1 && argsOK(args, 1)
+//@   assert-at FunCall [frame-marked-terminal-before-the-call] env.Runtime.Stack.Frames[len(env.Runtime.Stack.Frames)-1].Terminal
+//@   assert-at return~return_env.FunCall(fun,_SExpr(fargs)) [call-value-returned-verbatim] arg0 == ret("FunCall", 0)
+//@   property C02
+
+//@ func builtinApply
+//@   requires rtOK(env) && len(env.Runtime.Stack.Frames) >= 1 && argsOK(args, 1)
+//@   assert-at FunCall [frame-marked-terminal-before-the-call] env.Runtime.Stack.Frames[len(env.Runtime.Stack.Frames)-1].Terminal
+//@   property C02
